@@ -319,7 +319,7 @@ func errorThenCopy(c *Ctx, st *allocState, src, nslots int) bool {
 }
 
 func genC09(c *Ctx) {
-	n := c.Scale(1400, 200000)
+	n := c.Scale(1400, 100000)
 	const nslots = 6
 	for k := 0; k < n; k++ {
 		c.Emit(fmt.Sprintf("case %d", k))
